@@ -126,7 +126,9 @@ def execute(case):
     try:
         if k == 'sim':
             eng = DailyBusinessDaySimulationEngine(start_of(case), ts(case['end']), pre_market=case['pre'], post_market=case['post'])
-            return dict(out='ok', events=[[xsecs(ev.ts), ev.event_type] for ev in eng])
+            first = [[xsecs(ev.ts), ev.event_type] for ev in eng]
+            again = [[xsecs(ev.ts), ev.event_type] for ev in eng]      # the same engine object walked a second time
+            return dict(out='ok', events=first, events_again=again)
         if k == 'weekly':
             r = WeeklyRebalance(start_of(case), ts(case['end']), case['wd'], pre_market=case['pre'])
         elif k == 'daily':
@@ -231,6 +233,9 @@ def oracle_c12(case, real):
         out.append(dict(what='clock events differ from the Mon-Fri template: days only in clock %r, missing %r' % (
             [str(date_of(d)) for d in got_days if d not in exp_days][:5], [str(date_of(d)) for d in exp_days if d not in got_days][:5]),
             key='events'))
+    if real.get('events_again') is not None and real['events_again'] != real['events']:
+        out.append(dict(what='a second walk over the same engine gives %d events, the first gave %d' % (len(real['events_again']), len(real['events'])),
+                        key='second-iteration'))
     tms = [t for t, k in real['events']]
     if any(a >= b for a, b in zip(tms, tms[1:])):
         out.append(dict(what='clock not strictly increasing', key='not-increasing'))
